@@ -21,6 +21,7 @@ type HarnessDef struct {
 	Thorough *HarnessSpec // overrides for the thorough tier (nil: same as quick)
 	Tier     string       // "" = both tiers, "thorough" = thorough tier only
 	ReplayFn string       // native replay function in the overlay (default: the harness itself)
+	ReplayPatches []SrcPatch // textual redirects applied to copies of /repo files for the native replay
 	// KnownFinding: this harness isolates a listed finding: `sat` is expected
 	// while the finding is open and prints KNOWN-FINDING instead of VIOLATION.
 	KnownFinding string
@@ -286,7 +287,7 @@ func cmdCheck(args []string) int {
 			case ob.Verdict == "sat":
 				// counterexample: replay natively before reporting
 				rp := filepath.Join(verifRoot, "replays", fmt.Sprintf("%s_%s_%d.json", *prop, r.Name, len(lines)))
-				rec := ReplayRecord{Property: *prop, Harness: r.Name, Pkg: r.Pkg, Label: ob.Label, Kind: ob.Kind, Site: ob.Pos, Vector: ob.Model, ReplayFn: d.ReplayFn, Redirects: specs[i].Redirects}
+				rec := ReplayRecord{Property: *prop, Harness: r.Name, Pkg: r.Pkg, Label: ob.Label, Kind: ob.Kind, Site: ob.Pos, Vector: ob.Model, ReplayFn: d.ReplayFn, Redirects: specs[i].Redirects, Patches: d.ReplayPatches}
 				writeJSON(rp, rec)
 				reproduced, detail := replayRecord(&rec)
 				os["replay"] = rp
